@@ -971,7 +971,7 @@ func (c *Ctx) execBlock(b *ssa.BasicBlock, st *State, edgeCond map[edge]string, 
 		case *ssa.Return:
 			c.doReturn(x, st)
 		case *ssa.Panic:
-			if c.con.Sweep || sweepAll {
+			if (c.con.Sweep && len(c.con.SweepKinds) == 0) || sweepAll {
 				c.addObl("S", c.fnName()+".panic.unreachable", "false", "explicit panic")
 			}
 			c.curReach = "false"
